@@ -58,8 +58,8 @@ PLAN = {
         'inv': ['C11_NoResidue', 'C11_FreshWhenEmpty'],
         'walks': [('residue_big', 40, 1000, 60)],
         'walk_inv': ['C11_NoResidue', 'C11_FreshWhenEmpty'],
-        'quick': ['residue_quick'],
-        'thorough': ['residue_quick', 'residue_t'],
+        'quick': ['residue_quick', 'residue_ac_quick'],
+        'thorough': ['residue_quick', 'residue_ac_quick', 'residue_t'],
     },
     'C12': {
         'inv': ['C12_Isolation'],
